@@ -258,6 +258,7 @@ func (j *Journal) Since(n int) []Effect {
 type jstate struct {
 	*sqlite.DB
 	j *Journal
+	e *Env
 }
 
 func (s jstate) AddVoucher(ctx context.Context, ov *fdo.Voucher) error {
@@ -275,6 +276,12 @@ func (s jstate) SetRVBlob(ctx context.Context, ov *fdo.Voucher, to1d *cose.Sign1
 	return err
 }
 func (s jstate) ReplaceVoucher(ctx context.Context, guid protocol.GUID, ov *fdo.Voucher) error {
+	if s.e != nil {
+		if h := s.e.BeforeReplace; h != nil {
+			s.e.BeforeReplace = nil // one shot: whatever the hook does may itself replace a voucher
+			h()
+		}
+	}
 	err := s.DB.ReplaceVoucher(ctx, guid, ov)
 	if err == nil {
 		s.j.Add("voucher-replace", fmt.Sprintf("%x", guid[:]), fmt.Sprintf("%x", ov.Header.Val.GUID[:]))
@@ -396,12 +403,16 @@ type Env struct {
 	// TO2RvInfo, when not nil, is the rendezvous info the owner service puts into replacement credentials (default: RvInfo)
 	TO2RvInfo [][]protocol.RvInstruction
 	// Sess records what the owner's TO2 sessions stored as replacement GUID / rendezvous info (see jsess)
-	Sess       *Journal
-	AcceptTTL  func(requested uint32) (uint32, error)
-	InvalFail  int32 // number of upcoming InvalidateToken calls that fail (see faultyTokens)
-	devCA      crypto.Signer
-	devCAChain []*x509.Certificate
-	nDev       int
+	Sess      *Journal
+	AcceptTTL func(requested uint32) (uint32, error)
+	// BeforeReplace (one shot) runs inside the owner's TO2.Done handling right before the voucher store is asked to replace
+	// the voucher: whatever it does happens between that session's voucher lookup and its replacement (an interleaving
+	// with another request made deterministic)
+	BeforeReplace func()
+	InvalFail     int32 // number of upcoming InvalidateToken calls that fail (see faultyTokens)
+	devCA         crypto.Signer
+	devCAChain    []*x509.Certificate
+	nDev          int
 	// OwnerRole names the cached key (see Key) the owner service signs with: "owner" unless made by NewWithOwner.
 	OwnerRole string
 	// Opt holds the optional settings of NewWithOptions (zero value: the defaults of New).
@@ -488,7 +499,7 @@ func (e *Env) open(first bool) error {
 		e.devCA = Key(P384, "devca")
 		e.devCAChain = SelfSigned(e.devCA, "device CA")
 	}
-	st := jstate{db, e.Journal}
+	st := jstate{db, e.Journal, e}
 	if e.Sess == nil {
 		e.Sess = &Journal{}
 	}
